@@ -48,7 +48,7 @@ var (
 	c16Errnos      = []string{"EIO", "ENOSPC", "EACCES", "EDQUOT"}
 	c16Global      = []string{"write", "pwrite64", "close", "fsync", "rename", "renameat", "renameat2", "fchmod", "fchmodat", "chmod", "ftruncate", "unlinkat", "fstat", "newfstatat", "fchown", "linkat"}
 	c16PathSys     = []string{"openat", "read"}
-	c16Inputs      = []string{"p-and-missing-list", "p-and-list-with-missing-entry", "unparseable-then-unreadable", "patch-list-is-a-directory", "patch-list-line-too-long", "missing-path-first", "missing-dir-first", "two-missing-paths", "unparseable-source", "unparseable-result", "rewrite-error", "missing-path", "missing-patch", "malformed-patch", "missing-list-entry", "unreadable-source", "unreadable-patch", "directory-named-go", "rewrite-error-plus-other-change", "no-fault", "unparseable-source-of-another-package"}
+	c16Inputs      = []string{"p-and-missing-list", "p-and-list-with-missing-entry", "unparseable-then-unreadable", "patch-list-is-a-directory", "patch-list-line-too-long", "missing-path-first", "missing-dir-first", "two-missing-paths", "unparseable-source", "unparseable-result", "rewrite-error", "missing-path", "missing-patch", "malformed-patch", "missing-list-entry", "unreadable-source", "unreadable-patch", "directory-named-go", "rewrite-error-plus-other-change", "no-fault", "unparseable-source-of-another-package", "missing-path-below-a-walked-directory"}
 	c16ErrnoText   = map[string]string{"EIO": "input/output error", "ENOSPC": "no space left on device", "EACCES": "permission denied", "EDQUOT": "disk quota exceeded", "EFBIG": "file too large"}
 	c16FaultsCache = map[string][]fault{}
 )
@@ -465,6 +465,12 @@ func runC16(ctx *core.Ctx, idx int) *core.Result {
 			extraArgs = append(extraArgs, "nonexistent_b"+fmt.Sprint(tgt)+"/...")
 			expectFailFile, causeWords = "nonexistent_a"+fmt.Sprint(tgt)+".go", []string{"no such file"}
 			alsoNamed = append(alsoNamed, "nonexistent_b"+fmt.Sprint(tgt))
+		case "missing-path-below-a-walked-directory":
+			// the directory itself is an argument too, and comes first: the path that does not exist lies (by its
+			// spelling) inside something that has been walked already, and is still a requested path
+			preArgs = append(preArgs, ".")
+			extraArgs = append(extraArgs, []string{"./nonexistent_" + fmt.Sprint(tgt) + ".go", "nosuchdir/missing_" + fmt.Sprint(tgt) + ".go", "./nosuchdir" + fmt.Sprint(tgt) + "/..."}[tgt%3])
+			expectFailFile, causeWords = []string{"nonexistent_" + fmt.Sprint(tgt) + ".go", "missing_" + fmt.Sprint(tgt) + ".go", "nosuchdir" + fmt.Sprint(tgt)}[tgt%3], []string{"no such file"}
 		case "missing-path":
 			extraArgs = append(extraArgs, "nonexistent_"+fmt.Sprint(tgt)+".go")
 			expectFailFile, causeWords = "nonexistent_"+fmt.Sprint(tgt)+".go", []string{"no such file"}
